@@ -1,20 +1,15 @@
 /-
-The abstraction from CONCRETE write scripts (payloads; Hts.Model.BgzfWriter) to the abstract scripts of the
-writer LTS (Hts.Model.WriterLTS: `write k`, `flush nonempty`, `wait`, `close`).  Core Lean only, so that the
-driver can run it (`c08.abs`): the harnesses' Go re-implementation of this map (`wSim` in c12.go) and the
-implementation's own `Writer.Next()` are compared with it on every run.
+The abstraction from a CONCRETE write script of the sequential writer model (Hts.Model.BgzfWriter: payloads) to
+the abstract script of the writer LTS (Hts.Model.WriterLTS).  Core Lean only (the driver uses it to check the
+harness's own re-implementation of Write's block splitting, `wSim` in go/cmd/harness/c12.go).
 
 A `Write` becomes `write k` with `k` = the number of blocks that call queues in the sequential writer state it
-runs in, a `Flush` becomes `flush b` with `b` = "the active block is non-empty" in that state.
-
-The definitions are, on purpose, literally those of `Hts.Model.WriterCompose` (Lemmas/WriterCompose.lean,
-branch ext-A10), where `absScript_blocks_init : seqBlocks (absScript ops) false = (after ops).emitted.length`,
-`absScript_hasClose` and the byte-level composition `compose_output` are proved; with both files present
-`WriterCompose.absScript = WriterAbs.absScript` holds by `rfl`.
+runs in (the growth of `emitted`), a `Flush` becomes `flush b` with `b` = "the active block is non-empty" in that
+state.  That these are the right numbers is `Hts.Model.WriterCompose.absScript_blocks`.
 -/
 import Hts.Model.BgzfWriter
 import Hts.Model.WriterLTS
-namespace Hts.Model.WriterAbs
+namespace Hts.Model.WriterCompose
 open Hts.Model
 open Hts.Model.BgzfWriter (BlockSize blockSize_pos)
 
@@ -34,4 +29,4 @@ def absScriptFrom (s : BgzfWriter.State α) : List (BgzfWriter.Op α) → List W
 
 def absScript (ops : List (BgzfWriter.Op α)) : List WriterLTS.Op := absScriptFrom BgzfWriter.State.init ops
 
-end Hts.Model.WriterAbs
+end Hts.Model.WriterCompose
